@@ -51,12 +51,21 @@ func runHistory(run *ev.Run, caseIdx int, router int) {
 	r := run.CaseRand(16, caseIdx)
 	rn := opdrv.RouterNames[router]
 	cfg := opdrv.DefaultConfig()
+	// where the user form lives: the form path on the issuer (default) or the deprecated complete form URL; drawn from a
+	// stream of its own (the same for both routers), so that the histories themselves are what they were without it
+	formKnob := pick(run.CaseRand(1603, caseIdx), "path", "path", "path", "path", "url", "url", "url-query")
+	switch formKnob {
+	case "url":
+		cfg.DeviceAuthorization.UserFormURL = opdrv.DefaultIssuer + "/activate"
+	case "url-query":
+		cfg.DeviceAuthorization.UserFormURL = opdrv.DefaultIssuer + "/activate?tenant=a"
+	}
 	w := opdrv.MustWorld(opdrv.Options{Config: cfg, Caps: vstore.Full})
 	pop := population(w, r)
 	var devs []*mDev
 	var log []opLog
 	violated := func(key, what string) {
-		run.Violation("C16:"+rn+":"+key, int64(caseIdx), what, map[string]any{"part": "history", "router": rn, "history": log})
+		run.Violation("C16:"+rn+":"+key, int64(caseIdx), what, map[string]any{"part": "history", "router": rn, "user_form": formKnob, "user_form_url": cfg.DeviceAuthorization.UserFormURL, "history": log})
 	}
 	steps := 6 + r.IntN(30)
 	began := time.Now()
@@ -107,7 +116,11 @@ func runHistory(run *ev.Run, caseIdx int, router int) {
 				run.Count("c05_domain", fmt.Sprintf("%s:device_code_for_%s_client_with_%s_credentials", rn, a.kind, standing))
 			}
 			run.Eval()
-			res, greys, f := judgeDeviceResponse(w, resp, daExpect{issuer: w.Issuer, cfg: cfg.DeviceAuthorization, client: a.id, scopes: fields(scopes)}, t0, t1)
+			others := map[string]string{}
+			for _, d := range devs {
+				others[d.userCode] = fmt.Sprintf("flow #%d (client %s, %s)", d.n, d.owner, d.label())
+			}
+			res, greys, f := judgeDeviceResponse(w, resp, daExpect{issuer: w.Issuer, cfg: cfg.DeviceAuthorization, client: a.id, scopes: fields(scopes), others: others}, t0, t1)
 			for _, g := range greys {
 				run.Count("grey", g)
 			}
@@ -115,7 +128,14 @@ func runHistory(run *ev.Run, caseIdx int, router int) {
 				violated("response:"+f.key, f.what)
 				return
 			}
-			run.Distinct(fmt.Sprintf("da|%s|%s|%s|%d|names-other=%v", rn, a.kind, ck, len(fields(scopes)), named != "" && named != a.id))
+			// which flow of the provider this is and what became of the ones before it: the response must not depend on either
+			nth, before := "first-flow", "none"
+			if len(devs) > 0 {
+				nth, before = "later-flow", devs[len(devs)-1].label()
+			}
+			run.Distinct(fmt.Sprintf("da|%s|%s|%s|%d|names-other=%v|form=%s|%s|previous=%s", rn, a.kind, ck, len(fields(scopes)), named != "" && named != a.id, formKnob, nth, before))
+			run.Count("history_form", formKnob+":"+nth)
+			run.Observed("history:form-" + map[bool]string{true: "path", false: "url"}[formKnob == "path"] + ":" + nth + ":" + rn)
 			d := &mDev{n: len(devs), code: res.DeviceCode, userCode: res.UserCode, owner: a.id, scopes: fields(scopes), state: "pending", tainted: standing == "invalid"}
 			devs = append(devs, d)
 			run.SampleKind("device_authorization_response", map[string]any{"router": rn, "request": entry.Req, "response": resp.Body.String()})
